@@ -8,7 +8,7 @@
      - a str, tried in this order:
          1. '<W>x<H>'  (string_die: rsplit('x') gives exactly two parts, both accepted by
             float())                -> the die {width: W, height: H}, no regions
-         2. a text containing ': '  -> YAML text, loaded
+         2. a text containing ': ' or a line break  -> YAML text, loaded
          3. anything else           -> a file name: open(name).read(), loaded
      - an open text stream          -> stream.read(), loaded                   (InStream)
    The third component of the description, the fixed rectangles of the attached netlist,
@@ -25,9 +25,10 @@
    The file system and the YAML loader (ruamel) are external: Section variables
    [file_of] and [yaml_load].
 
-   read_yaml is modelled AFTER fixes/C01-stream-handle.diff: the unrepaired code tests
+   read_yaml is modelled as repaired by fixes/C19-read-yaml-stream.diff (the original tested
    isinstance(stream, typing.TextIO), which no object returned by open() or io.StringIO
-   satisfies, so every description handed over as an open stream is refused.
+   satisfies, so every description handed over as an open stream was refused) and by
+   fixes/C19-read-yaml-text.diff (a str with a line break is a text even without ': ').
    Definitions only; facts in DieInputFacts.v. *)
 From FrameModel Require Import Num.QcTac Geometry.Rect Die.Boundaries Die.Cells Die.Cover Die.DieModel.
 From Coq Require Import Ascii String.
@@ -179,6 +180,10 @@ Fixpoint has_colon_space (l : list ascii) : bool :=
   | [] => false
   end.
 
+Definition has_newline (l : list ascii) : bool := existsb (is_char 10) l.
+(* the str is a YAML text, not a file name: s.find(": ") >= 0 or s.find("\n") >= 0 *)
+Definition is_text (l : list ascii) : bool := has_colon_space l || has_newline l.
+
 (* what the YAML loader returns for a text *)
 Inductive yload :=
   | LErr                                  (* the loader raises (scanner / parser / duplicate key ...) *)
@@ -219,7 +224,7 @@ Section World.
 
   (* read_yaml on a str *)
   Definition read_str (s : string) : resolved :=
-    if has_colon_space (chars s) then from_text s else
+    if is_text (chars s) then from_text s else
     match file_of s with
     | Some txt => from_text txt
     | None => RRaise
